@@ -206,8 +206,73 @@ static int do_bmixed(int K, long cap, unsigned seed) {
     return 0;
 }
 
+// mode "bthrow K variant seed": blocked calls must complete as soon as items / space appear, also around operations that FAIL with an exception.
+//   (a) K consumers parked in pop(); a push whose copy constructor throws (it used up a ticket); then K good push / try_push / emplace (variant): every consumer returns
+//       with one of the good values within 3 s;  (b) the same with the failing push BETWEEN the good ones;
+//   (c) K producers parked in push() on a full queue; a pop whose assignment throws (the slot is freed all the same); then pops: every producer returns, nothing lost.
+// output: STUCK x LOST y EXTRA z
+struct TE {
+    long v = 0;
+    TE() = default; explicit TE(long x) : v(x) {}
+    TE(const TE& o) : v(o.v) { if (o.v == -666) throw 1; }
+    TE(TE&& o) : v(o.v) { if (o.v == -666) throw 1; }
+    TE& operator=(const TE& o) { if (o.v == -777) throw 2; v = o.v; return *this; }
+    TE& operator=(TE&& o) { if (o.v == -777) throw 2; v = o.v; return *this; }
+};
+static int do_bthrow(int K, int variant, unsigned seed) {
+    std::mt19937 rng(seed);
+    long stuck = 0, lost = 0, extra = 0;
+    auto wait_all = [&](std::vector<std::atomic<int>>& done) {
+        for (int i = 0; i < 3000; ++i) { bool all = true; for (auto& d : done) if (!d.load()) all = false; if (all) return true; std::this_thread::sleep_for(std::chrono::milliseconds(1)); }
+        return false;
+    };
+    auto good_push = [&](tbb::concurrent_bounded_queue<TE>& q, long v, int how) {
+        switch (how % 3) { case 0: q.push(TE(v)); break; case 1: while (!q.try_push(TE(v))) std::this_thread::yield(); break; default: q.emplace(v); break; }
+    };
+    for (int pos = 0; pos <= K; pos += (K > 0 ? K : 1)) {   // (a) failing push first, (b) failing push after the good ones but one
+        tbb::concurrent_bounded_queue<TE> q; q.set_capacity(K + 4);
+        std::vector<long> got(K, -1); std::vector<std::atomic<int>> done(K); for (auto& d : done) d = 0;
+        std::vector<std::thread> th;
+        for (int k = 0; k < K; ++k) th.emplace_back([&, k] { TE t; q.pop(t); got[k] = t.v; done[k] = 1; });
+        auto* rep = q.my_queue_representation;
+        for (int i = 0; i < 3000 && (long)rep->head_counter.load() < K; ++i) std::this_thread::sleep_for(std::chrono::milliseconds(1));
+        std::this_thread::sleep_for(std::chrono::milliseconds(5 + rng() % 10));
+        int fail_at = pos == 0 ? 0 : K - 1;
+        for (int i = 0; i < K; ++i) {
+            if (i == fail_at) { try { TE bad(-666); q.push(bad); } catch (int) {} }
+            good_push(q, 100 + i, variant + i);
+        }
+        if (!wait_all(done)) { stuck++; std::printf("STUCK %ld LOST %ld EXTRA %ld\n", stuck, lost, extra); std::fflush(stdout); _exit(0); }
+        for (auto& x : th) x.join();
+        std::vector<long> s(got); std::sort(s.begin(), s.end());
+        for (int k = 0; k < K; ++k) if (s[k] != 100 + k) lost++;
+        TE t; if (q.try_pop(t)) extra++;
+    }
+    {   // (c)
+        long cap = 2;
+        tbb::concurrent_bounded_queue<TE> q; q.set_capacity(cap);
+        q.push(TE(-777)); q.push(TE(2));
+        std::vector<std::atomic<int>> done(K); for (auto& d : done) d = 0; std::vector<std::thread> th;
+        for (int k = 0; k < K; ++k) th.emplace_back([&, k] { q.push(TE(1000 + k)); done[k] = 1; });
+        auto* rep = q.my_queue_representation;
+        for (int i = 0; i < 3000 && (long)rep->tail_counter.load() < cap + K; ++i) std::this_thread::sleep_for(std::chrono::milliseconds(1));
+        std::this_thread::sleep_for(std::chrono::milliseconds(5 + rng() % 10));
+        std::vector<long> seen;
+        { TE t; try { q.pop(t); seen.push_back(t.v); } catch (int) {} }      // the assignment of the first item throws
+        for (int i = 0; i < K + 1; ++i) { TE t; bool ok = false; for (int w = 0; w < 3000 && !(ok = q.try_pop(t)); ++w) std::this_thread::sleep_for(std::chrono::milliseconds(1)); if (ok) seen.push_back(t.v); else break; }
+        if (!wait_all(done)) { stuck++; std::printf("STUCK %ld LOST %ld EXTRA %ld\n", stuck, lost, extra); std::fflush(stdout); _exit(0); }
+        for (auto& x : th) x.join();
+        std::sort(seen.begin(), seen.end());
+        std::vector<long> want{2}; for (int k = 0; k < K; ++k) want.push_back(1000 + k);
+        if (seen != want) lost++;
+    }
+    std::printf("STUCK %ld LOST %ld EXTRA %ld\n", stuck, lost, extra);
+    return 0;
+}
+
 int main(int argc, char** argv) {
     std::string m = argc > 1 ? argv[1] : "";
+    if (m == "bthrow") return do_bthrow(atoi(argv[2]), atoi(argv[3]), (unsigned)atoi(argv[4]));
     if (m == "bmixed") return do_bmixed(atoi(argv[2]), atol(argv[3]), (unsigned)atoi(argv[4]));
     if (m == "qidx") return do_qidx();
     if (m == "gate") return do_gate();
